@@ -659,7 +659,7 @@ def _cases(tier, seed):
             for mod in REPO_TEST_MODULES:
                 yield {"gen": "repotests", "module": mod}
 
-    gens = [(repotests(), 1), (sweep(), 4), (oom(), 1), (programs(), 8)]
+    gens = [(repotests(), 1), (sweep(), 8), (oom(), 1), (programs(), 6)]
     live = True
     while live:
         live = False
